@@ -152,13 +152,12 @@ def special_keys(name):
 def seeded_scalar(name, i):
     """Random scalar derived from VERIF_SEED, the curve and an index (top byte non-zero so that long-form length mutations are not cut short)."""
     cx = Cx.get(name)
-    k = 0
-    while True:
+    for k in range(64):  # (on SECP160r1, n = 2^160 + small, practically every scalar has a 00 top byte)
         h = hashlib.shake_256(("c19|%d|%s|%d|%d" % (env.seed_base(), name, i, k)).encode()).digest(cx.Ln + 8)
         d = 1 + int.from_bytes(h, "big") % (cx.n - 1)
         if d >> (8 * (cx.Ln - 1)):
-            return d
-        k += 1
+            break
+    return d
 
 
 def key_classes(cx, d, pub, rec, prefix="key."):
